@@ -8,6 +8,7 @@ checked to qualify itself) and an independent one-node-at-a-time peeling beyond.
 import sys
 from fractions import Fraction as Fr
 from common import *  # noqa
+sys.path.insert(0, os.path.join(VERIF, 'translate')); import cores  # noqa: E402
 
 PID = 'C15'
 T_CALL = 3.0
@@ -658,7 +659,13 @@ def main():
                        'undirected routines are judged on symmetric input; for the correspondence with the exact-rational Lean model the weights of score_wu are non-negative dyadic rationals (float sums exact)',
                        'decimal-weight score_wu cases are judged against the documented semantics evaluated in floats (fresh re-sum of the submatrix, C order, n <= 6) and are NOT compared with the Lean model, which cannot see one-ulp effects',
                        'kn[0] of kcoreness_centrality_* (code convention: number of non-isolated nodes) is compared with the model but not judged']
+    # T-gen: re-extract the core update steps from /repo's current source (translate/cores.py); the generated
+    # obligations say the extracted IR is the reference program whose interpreter is proved equal to the model
+    ck.cov['cores'] = cores.generate(families=['peel'])
+    for p_ in ck.cov['cores']['problems']:
+        ck.corr_break('core extractor (translate/cores.py)', p_)
     ok = ck.lean_gate(['BctVerif.Props.C15'], extra_modules=['BctVerif.Model.Core'])
+    ck.lean_gate([], gen_modules=['BctVerif.Gen.CoresPeel'])
     if ck.tier == 'thorough' and ok:
         ck.leanchecker(['BctVerif.Props.C15', 'BctVerif.Model.Core'])
     if ck.replay:
